@@ -5,6 +5,7 @@ import (
 	"go/types"
 	"math/big"
 	"strings"
+	"sync"
 
 	"golang.org/x/tools/go/ssa"
 )
@@ -29,7 +30,7 @@ type Env struct {
 	loop   *Loop
 	pkg    *ssa.Package
 	depth  int
-	oldMid bool // old() refers to a state inside the function (iteration start): locals are visible there
+	oldMid bool   // old() refers to a state inside the function (iteration start): locals are visible there
 	cur    *State // inside old(...): the current state, for now(...)
 }
 
@@ -388,8 +389,11 @@ func (env *Env) ident(name string) (EV, error) {
 }
 
 var allocCache = map[*ssa.Function]map[*ssa.Alloc]bool{}
+var allocMu sync.Mutex // functions are verified in parallel
 
 func localAllocs(fn *ssa.Function) map[*ssa.Alloc]bool {
+	allocMu.Lock()
+	defer allocMu.Unlock()
 	if m, ok := allocCache[fn]; ok {
 		return m
 	}
